@@ -308,6 +308,11 @@ struct Tok {
     pos: usize,
     page: Option<usize>,
     state: TokState,
+    /// the bounded store may have had to drop this point: when a later point was issued, the
+    /// MAX_BROWSE_CONTINUATION_POINTS youngest outstanding points did not include it
+    evictable: bool,
+    /// a stale point that a BrowseNext has already purged no longer occupies a slot
+    purged: bool,
 }
 
 struct R {
@@ -512,6 +517,19 @@ impl R {
 
     fn issue(&mut self, cp: &ByteString, exact: bool, full: Vec<D>, pos: usize, page: Option<usize>) -> usize {
         let bytes = cp.value.clone().unwrap_or_default();
+        // points still occupying a slot of the session's bounded store, oldest first
+        let max = opcua::server::constants::MAX_BROWSE_CONTINUATION_POINTS;
+        let occ: Vec<usize> = (0..self.toks.len())
+            .filter(|i| {
+                let t = &self.toks[*i];
+                !t.purged && matches!(t.state, TokState::Live | TokState::MaybeStale | TokState::Stale(_))
+            })
+            .collect();
+        if occ.len() >= max {
+            for i in &occ[..occ.len() + 1 - max] {
+                self.toks[*i].evictable = true;
+            }
+        }
         self.toks.push(Tok {
             bytes: cp.clone(),
             exact,
@@ -519,6 +537,8 @@ impl R {
             pos,
             page,
             state: TokState::Live,
+            evictable: false,
+            purged: false,
         });
         self.by_bytes.insert(bytes, self.toks.len());
         self.toks.len()
@@ -958,12 +978,18 @@ impl Runner for R {
                         return (format!("err {}", e.name()), v);
                     }
                 };
+                // BrowseNext first drops every point that an address-space change invalidated
+                for t in self.toks.iter_mut() {
+                    if matches!(t.state, TokState::Stale(_)) {
+                        t.purged = true;
+                    }
+                }
                 let mut parts = Vec::new();
                 let mut verdict = Verdict::Ok;
                 for (tok, r) in ids.iter().zip(results.iter()) {
                     let known = *tok >= 1 && *tok <= issued_before;
+                    let evictable = known && self.toks[tok - 1].evictable;
                     let (state, exact) = if known { (self.toks[tok - 1].state, self.toks[tok - 1].exact) } else { (TokState::Used, false) };
-                    let issued_after = if known { self.toks.len() - tok } else { 0 };
                     let v;
                     if r.status_code.is_good() {
                         // the property: only a live point may be used
@@ -990,8 +1016,10 @@ impl Runner for R {
                         let body = if exact { format!("refs={}", show_descs(&got)) } else { "~".to_string() };
                         parts.push(format!("Good n={} cp={} {}", got.len(), cp, body));
                     } else {
-                        v = if known && state == TokState::Live && issued_after < max_cps {
-                            Verdict::fail("cp_live_usable", "next", format!("live token {} rejected with {}", tok, r.status_code.name()))
+                        // a point nobody used, released or invalidated is still valid — unless the bound of the
+                        // store forced the server to drop it when a younger point was issued
+                        v = if known && state == TokState::Live && !evictable {
+                            Verdict::fail("cp_live_usable", "next", format!("live token {} rejected with {} although the store never had to drop it", tok, r.status_code.name()))
                         } else {
                             Verdict::Ok
                         };
